@@ -32,6 +32,9 @@ func runProgram(forms []Node, globals []string, timeout time.Duration) Obs {
 	var eerr error
 	kind, site, msg := guarded(timeout, func() { res, eerr = evalForms(ctx, ns, asts) })
 	obs.Eff = probe.effects()
+	probe.mu.Lock()
+	obs.Depth = append([]int{}, probe.Depths...)
+	probe.mu.Unlock()
 	switch kind {
 	case "panic", "hang":
 		obs.K, obs.Site, obs.Msg = kind, site, msg
@@ -171,6 +174,47 @@ func judgeProg(c *Case, obs Obs) Verdict {
 			return bad("global:" + g)
 		}
 	}
+	if c.Opt["long_run_constant"] == "1" {
+		for i := range obs.Depth {
+			if obs.Depth[i] != obs.Depth[0] {
+				v.Verdict = "mismatch"
+				v.Key = "stack:grows-where-tail:long:" + sig
+				v.Note = fmt.Sprintf("long tail loop: depth %d at iteration 1, %d at iteration %d", obs.Depth[0], obs.Depth[i], i+1)
+				return v
+			}
+		}
+	}
+	// tail-call discipline: the SIGN of every depth difference between probe calls must be
+	// the one the definition predicts (equal where it says tail, deeper where it says not)
+	if len(al.Depths) > 0 {
+		if len(obs.Depth) != len(al.Depths) {
+			return bad("probe-count")
+		}
+		sign := func(x int) int {
+			switch {
+			case x < 0:
+				return -1
+			case x > 0:
+				return 1
+			}
+			return 0
+		}
+		for i := range al.Depths {
+			for j := i + 1; j < len(al.Depths); j++ {
+				if sign(al.Depths[i]-al.Depths[j]) != sign(obs.Depth[i]-obs.Depth[j]) {
+					v.Verdict = "mismatch"
+					grow := "grows-where-tail"
+					if al.Depths[i] != al.Depths[j] {
+						grow = "constant-where-not-tail"
+					}
+					v.Key = fmt.Sprintf("stack:%s:%s", grow, sig)
+					v.Note = fmt.Sprintf("host stack depth at probe calls %d and %d: observed %d and %d, definition %d and %d",
+						i+1, j+1, obs.Depth[i], obs.Depth[j], al.Depths[i], al.Depths[j])
+					return v
+				}
+			}
+		}
+	}
 	v.Verdict = "ok"
 	return v
 }
@@ -188,6 +232,10 @@ func runProg(c *Case) Verdict {
 		}
 		forms = append(append([]Node{}, pre...), c.Forms...)
 	}
-	obs := runProgram(forms, globals, 20*time.Second)
+	timeout := 20 * time.Second
+	if c.Opt["long_run_constant"] == "1" {
+		timeout = 600 * time.Second
+	}
+	obs := runProgram(forms, globals, timeout)
 	return judgeProg(c, obs)
 }
